@@ -233,6 +233,8 @@ def parse_int_str(it, sv: VStr, base: int) -> VInt:
             it.raise_(ValueError, "invalid literal for int()")
         return VInt(INT_BASE(sv.e))
     digits = z3.InRe(sv.e, z3.Plus(z3.Range("0", "9")))
+    if it.pure:
+        return VInt(z3.StrToInt(sv.e))  # clauses are total: unspecified outside digit strings (guard it in the clause)
     it.assumptions_used.add("int(str) modelled on ASCII decimal digit strings; other accepted spellings (sign, spaces, underscores, Unicode digits) are outside the model")
     if not it.branch(digits):
         # outside the modelled domain int() may still accept; treat as ValueError OR an unknown value
@@ -367,10 +369,26 @@ def _all_any(it, self, args, kw):
     raise OutOfSubset("all/any handled by caller")  # replaced below
 
 
+def _pure_fold(it, v, is_all):
+    parts = []
+    for x in it.iterate(v):
+        t = it.truth(x)
+        if isinstance(t, bool):
+            if t != is_all:
+                return VBool(t)
+            continue
+        parts.append(t)
+    if not parts:
+        return VBool(is_all)
+    return VBool(z3.And(*parts) if is_all else z3.Or(*parts))
+
+
 def _all(it, self, args, kw):
     v = args[0]
     if isinstance(v, VBool):  # produced by a symbolic comprehension (elementwise rule)
         return v
+    if it.pure:
+        return _pure_fold(it, v, True)
     for x in it.iterate(v):
         if not it.test(x):
             return VBool(False)
@@ -381,6 +399,8 @@ def _any(it, self, args, kw):
     v = args[0]
     if isinstance(v, VBool):
         return v
+    if it.pure:
+        return _pure_fold(it, v, False)
     for x in it.iterate(v):
         if it.test(x):
             return VBool(True)
@@ -1548,3 +1568,19 @@ def _spec_hexisempty(it, self, args, kw):
     if z3.eq(args[0].e, H["EMPTY"]):
         return VBool(True)
     return VBool(H["ISEMPTY"](args[0].e))
+
+
+def version_grammar_re():
+    """N(.N)*[-(alpha|beta|rc)[.N]]"""
+    d = z3.Plus(z3.Range("0", "9"))
+    label = z3.Union(z3.Re("alpha"), z3.Re("beta"), z3.Re("rc"))
+    return z3.Concat(d, z3.Star(z3.Concat(z3.Re("."), d)), z3.Option(z3.Concat(z3.Re("-"), label, z3.Option(z3.Concat(z3.Re("."), d)))))
+
+
+@handler("spec.in_version_grammar")
+def _spec_in_version_grammar(it, self, args, kw):
+    s = args[0]
+    if s.conc is not None:
+        import re
+        return VBool(re.fullmatch(r"[0-9]+(\.[0-9]+)*(-(alpha|beta|rc)(\.[0-9]+)?)?", s.conc) is not None)
+    return VBool(z3.InRe(s.e, version_grammar_re()))
